@@ -108,8 +108,8 @@ def mapAllBody : Expr :=
       (call1 "map-all" (call2 "map1" (var "cdr") (var "xss"))))
 
 open Expr in
-def mapDef : Def := ⟨"map", ["f"], some "xss",
-  letrec1 "map-all" "xss" mapAllBody (call1 "map-all" (var "xss"))⟩
+def mapDef : Def := ⟨"map", ["f", "xs"], some "xss",
+  letrec1 "map-all" ["xss"] mapAllBody (call1 "map-all" (call2 "cons" (var "xs") (var "xss")))⟩
 
 open Expr in
 /-- the body of `for-each-all` -/
@@ -119,8 +119,8 @@ def forEachAllBody : Expr :=
       (seq (call1 "for-each-all" (call2 "map1" (var "cdr") (var "xss"))) (var "void")))
 
 open Expr in
-def forEachDef : Def := ⟨"for-each", ["f"], some "xss",
-  letrec1 "for-each-all" "xss" forEachAllBody (call1 "for-each-all" (var "xss"))⟩
+def forEachDef : Def := ⟨"for-each", ["f", "xs"], some "xss",
+  letrec1 "for-each-all" ["xss"] forEachAllBody (call1 "for-each-all" (call2 "cons" (var "xs") (var "xss")))⟩
 
 theorem find_map : defs.find? (·.name == "map") = some mapDef := by decide +kernel
 theorem find_forEach : defs.find? (·.name == "for-each") = some forEachDef := by decide +kernel
@@ -129,10 +129,10 @@ section
 variable {efuel : Nat} {user : String → Option Callee}
 
 /-- the `letrec`-bound `map-all`, whatever list the enclosing `map` was called with -/
-theorem localFn_mapAll {gname : String} {g : Callee} (hP : prims efuel user gname = some g) (l0 : VCell) :
+theorem localFn_mapAll {gname : String} {g : Callee} (hP : prims efuel user gname = some g) (l0 x0 : VCell) :
     ∀ (f : Nat) (s : Store) (xss : VCell),
     (handlers (prims efuel user) defs f).localFn
-        ⟨"map-all", "xss", mapAllBody, [("xss", l0), ("f", .builtin gname)]⟩ s [xss] = mapAll g f s xss
+        ⟨"map-all", ["xss"], mapAllBody, [("xss", l0), ("f", .builtin gname), ("xs", x0)]⟩ s [xss] = mapAll g f s xss
   | 0, s, xss => rfl
   | f+1, s, xss => by
     have hg4 := global_prim (P := prims efuel user) f (n := "cons") (by simp)
@@ -144,8 +144,9 @@ theorem localFn_mapAll {gname : String} {g : Callee} (hP : prims efuel user gnam
     have hnull : prims efuel user "null?" = some isNullB := by simp [prims]
     have hcar : prims efuel user "car" = some car := by simp [prims]
     have hcdr : prims efuel user "cdr" = some cdr := by simp [prims]
-    have ih := localFn_mapAll hP l0 f
-    simp only [handlers, mapAllBody, evalE, callNamed, applyVal, List.lookup, List.find?, hg4, hga, hgm,
+    have ih := localFn_mapAll hP l0 x0 f
+    simp only [handlers, mapAllBody, List.length_cons, List.length_nil, if_true, List.zip_cons_cons,
+      List.zip_nil_right, List.cons_append, List.nil_append, evalE, callNamed, applyVal, List.lookup, List.find?, hg4, hga, hgm,
       hcons, hnull, hcar, hcdr, hP, Option.isSome_some, if_true, bind_ok]
     simp [interp_anyNull, interp_map1 hcar, interp_map1 hcdr, hP]
     rw [mapAll]
@@ -177,28 +178,38 @@ theorem localFn_mapAll {gname : String} {g : Callee} (hP : prims efuel user gnam
     | _ => simp
 
 /-- **`map`**: one more unit of fuel than the model (the call of `map` itself; the model starts at
-    `map-all`) -/
+    `map-all`); without a list argument both are the arity error -/
 theorem interp_map {gname : String} {g : Callee} (hP : prims efuel user gname = some g) (fuel : Nat) (s : Store)
     (lists : List VCell) :
     interp (prims efuel user) defs (fuel+1) "map" s (.builtin gname :: lists) = map g fuel s lists := by
   rw [interp_succ find_map]
-  simp only [mapDef, bindArgs, List.length_cons, List.length_nil, List.drop_succ_cons, List.drop_zero,
-    List.take_succ_cons, List.take_zero, List.zip_cons_cons, List.zip_nil_right]
-  have hlt : ¬ (lists.length + 1 < 0 + 1) := by omega
-  simp only [hlt, if_false, map]
-  cases list s lists with
-  | ok r =>
-    obtain ⟨s1, l⟩ := r
-    simp only [bind_ok, evalE, callNamed, List.lookup, List.find?]
-    simp
-    have := localFn_mapAll hP l fuel s1 l
-    simp only [mapAllBody] at this
-    exact this
-  | _ => simp
-theorem localFn_forEachAll {gname : String} {g : Callee} (hP : prims efuel user gname = some g) (l0 : VCell) :
+  cases lists with
+  | nil => rfl
+  | cons x rest =>
+    have hg4 := global_prim (P := prims efuel user) fuel (n := "cons") (by simp)
+    have hcons : prims efuel user "cons" = some cons := by simp [prims]
+    simp only [mapDef, bindArgs, List.length_cons, List.length_nil, List.drop_succ_cons, List.drop_zero,
+      List.take_succ_cons, List.take_zero, List.zip_cons_cons, List.zip_nil_right]
+    have hlt : ¬ (rest.length + 1 + 1 < 0 + 1 + 1) := by omega
+    simp only [hlt, if_false, map]
+    cases list s rest with
+    | ok r =>
+      obtain ⟨s1, l⟩ := r
+      simp only [bind_ok, evalE, callNamed, List.lookup, List.find?, hg4, hcons]
+      simp
+      cases cons s1 [x, l] with
+      | ok r2 =>
+        obtain ⟨s2, xss⟩ := r2
+        simp only [bind_ok]
+        have := localFn_mapAll hP l x fuel s2 xss
+        simp only [mapAllBody] at this
+        exact this
+      | _ => simp
+    | _ => simp
+theorem localFn_forEachAll {gname : String} {g : Callee} (hP : prims efuel user gname = some g) (l0 x0 : VCell) :
     ∀ (f : Nat) (s : Store) (xss : VCell),
     (handlers (prims efuel user) defs f).localFn
-        ⟨"for-each-all", "xss", forEachAllBody, [("xss", l0), ("f", .builtin gname)]⟩ s [xss] =
+        ⟨"for-each-all", ["xss"], forEachAllBody, [("xss", l0), ("f", .builtin gname), ("xs", x0)]⟩ s [xss] =
       forEachAll g f s xss
   | 0, s, xss => rfl
   | f+1, s, xss => by
@@ -209,8 +220,9 @@ theorem localFn_forEachAll {gname : String} {g : Callee} (hP : prims efuel user 
     have hnull : prims efuel user "null?" = some isNullB := by simp [prims]
     have hcar : prims efuel user "car" = some car := by simp [prims]
     have hcdr : prims efuel user "cdr" = some cdr := by simp [prims]
-    have ih := localFn_forEachAll hP l0 f
-    simp only [handlers, forEachAllBody, evalE, callNamed, applyVal, List.lookup, List.find?, hga, hgm,
+    have ih := localFn_forEachAll hP l0 x0 f
+    simp only [handlers, forEachAllBody, List.length_cons, List.length_nil, if_true, List.zip_cons_cons,
+      List.zip_nil_right, List.cons_append, List.nil_append, evalE, callNamed, applyVal, List.lookup, List.find?, hga, hgm,
       hnull, hcar, hcdr, Option.isSome_some, if_true]
     simp [interp_anyNull, interp_map1 hcar, interp_map1 hcdr, hP]
     rw [forEachAll]
@@ -246,19 +258,29 @@ theorem interp_forEach {gname : String} {g : Callee} (hP : prims efuel user gnam
     (lists : List VCell) :
     interp (prims efuel user) defs (fuel+1) "for-each" s (.builtin gname :: lists) = forEach g fuel s lists := by
   rw [interp_succ find_forEach]
-  simp only [forEachDef, bindArgs, List.length_cons, List.length_nil, List.drop_succ_cons, List.drop_zero,
-    List.take_succ_cons, List.take_zero, List.zip_cons_cons, List.zip_nil_right]
-  have hlt : ¬ (lists.length + 1 < 0 + 1) := by omega
-  simp only [hlt, if_false, forEach]
-  cases list s lists with
-  | ok r =>
-    obtain ⟨s1, l⟩ := r
-    simp only [bind_ok, evalE, callNamed, List.lookup, List.find?]
-    simp
-    have := localFn_forEachAll hP l fuel s1 l
-    simp only [forEachAllBody] at this
-    exact this
-  | _ => simp
+  cases lists with
+  | nil => rfl
+  | cons x rest =>
+    have hg4 := global_prim (P := prims efuel user) fuel (n := "cons") (by simp)
+    have hcons : prims efuel user "cons" = some cons := by simp [prims]
+    simp only [forEachDef, bindArgs, List.length_cons, List.length_nil, List.drop_succ_cons, List.drop_zero,
+      List.take_succ_cons, List.take_zero, List.zip_cons_cons, List.zip_nil_right]
+    have hlt : ¬ (rest.length + 1 + 1 < 0 + 1 + 1) := by omega
+    simp only [hlt, if_false, forEach]
+    cases list s rest with
+    | ok r =>
+      obtain ⟨s1, l⟩ := r
+      simp only [bind_ok, evalE, callNamed, List.lookup, List.find?, hg4, hcons]
+      simp
+      cases cons s1 [x, l] with
+      | ok r2 =>
+        obtain ⟨s2, xss⟩ := r2
+        simp only [bind_ok]
+        have := localFn_forEachAll hP l x fuel s2 xss
+        simp only [forEachAllBody] at this
+        exact this
+      | _ => simp
+    | _ => simp
 end
 
 /-! ### `caar`, `list` -/
